@@ -36,7 +36,8 @@ EXPLANATION = (
     "which the connection is open, unanswered, has no pending callback and no armed timer (a "
     "peer held for ever), over all activation sequences. (X3) The timer callback's header is "
     "the literal 40 line and is followed by close. (X4) All call_later delays resolve to "
-    "positive numeric constants. Timer accuracy of the event loop is trusted."
+    "positive numeric constants. Timer accuracy of the event loop is trusted. "
+    "(X3b) No strict decode / int() on peer bytes is reachable in the timer callback before the close unless covered by a handler that still closes. (X5) close() of the transport facade reaches the TCP close on every normal path."
 )
 
 
